@@ -516,7 +516,7 @@ def shards(tier: str, seed: int) -> list:
     out: list = [{"part": "write", "k": k, "n": N_WRITE_SHARDS} for k in range(N_WRITE_SHARDS)]
     out += [{"part": "dir", "k": k, "n": N_DIR_SHARDS} for k in range(N_DIR_SHARDS)]
     if tier == "thorough":
-        out += [{"part": "write-random", "k": k, "n": 16} for k in range(16)]
+        out = [{"part": "write-random", "k": k, "n": 16} for k in range(16)] + out
     return out
 
 
@@ -565,6 +565,8 @@ def _run_shard(shard: dict, run: Any, root: str) -> None:
         bound = (4, 4) if run.tier == "quick" else (6, 6)
         for index, case in enumerate(_write_cases(*bound)):
             if index % n == k:
+                if index % 500 == k and run.out_of_time():
+                    return
                 _report(case, run, root)
     elif part == "dir":
         for index, case in enumerate(_dir_cases()):
@@ -573,7 +575,9 @@ def _run_shard(shard: dict, run: Any, root: str) -> None:
     else:  # seeded: two or three simultaneous faults, larger shapes
         rng = run.rng
         all_kinds = MODULE_KINDS + RECORD_LEVEL
-        while not run.out_of_time():
+        for _ in range(2500):
+            if run.out_of_time():
+                return
             nrec, nmod = rng.randint(1, 8), rng.randint(1, 8)
             chosen: dict[tuple[int, int], str] = {}
             for _ in range(rng.randint(2, 3)):
@@ -584,8 +588,6 @@ def _run_shard(shard: dict, run: Any, root: str) -> None:
             case = {"part": "write", "fn": func, "target": target, "nrec": nrec, "nmod": nmod,
                     "faults": faults, "pre": rng.choice(PRE_KINDS)}
             _report(case, run, root)
-            if run.evaluations > 40000:
-                break
 
 
 def replay(case: dict) -> list[str]:
